@@ -198,7 +198,9 @@ class FrameItem(EFLRItem):
     def known_channel_dtypes_mapping(self) -> dict:
         """Mapping of names of channels of the frame on the data types, if explicitly defined."""
 
-        return {ch.name: ch.cast_dtype for ch in self.channels.value if ch.cast_dtype is not None}
+        # (a cast dtype which was only derived from the data of a previous write does not count as defined)
+        return {ch.name: ch.cast_dtype for ch in self.channels.value
+                if ch.cast_dtype is not None and 'cast_dtype' not in ch._derived_from_data}
 
 
 class FrameSet(EFLRSet):
